@@ -153,17 +153,27 @@ class MultipartDecoder:
             re.MULTILINE,
         )
 
-    def last_newline(self) -> int:
-        try:
-            last_nl = self.buffer.rindex(b"\n")
-        except ValueError:
-            last_nl = len(self.buffer)
-        try:
-            last_cr = self.buffer.rindex(b"\r")
-        except ValueError:
-            last_cr = len(self.buffer)
+        # A delimiter whose end has not arrived yet: the boundary is complete
+        # but only blanks (or the first "-" of a closing "--") follow it so far.
+        self.unfinished_boundary_re = re.compile(
+            rb"%s--%s(?:-|[^\S\n\r]*)\Z" % (LINE_BREAK, re.escape(boundary)),
+            re.MULTILINE,
+        )
 
-        return min(last_nl, last_cr)
+    def last_newline(self) -> int:
+        """
+        Index from which the buffered data must be held back because it may be
+        the beginning of a delimiter that has not arrived completely yet.
+        """
+        match = self.unfinished_boundary_re.search(self.buffer)
+        if match is not None:
+            return match.start()
+        # Otherwise only a proper prefix of line break + "--" + boundary can be
+        # pending, and such a prefix starts within the last few bytes.
+        start = max(len(self.buffer) - len(self.boundary) - 3, 0)
+        tail = self.buffer[start:]
+        positions = [i for i in (tail.find(b"\r"), tail.find(b"\n")) if i != -1]
+        return start + min(positions) if positions else len(self.buffer)
 
     def receive_data(self, data: Optional[bytes]) -> None:
         if data is None:
